@@ -41,6 +41,7 @@ pub fn run_check(replay: Option<Value>) -> i32 {
         dim("direction", &["forward", "backward(reflected)"]),
         dim("jacobian", &["user", "finite-difference"]),
         dim("t_eval_shape", &["13 points incl. both ends", "3 interior points only"]),
+        dim("first_step", &["automatic", "span/37"]),
     ];
     lattice(&mut rep, "c12", &dims, only.as_deref(), |key, idx| {
         let m = M6[idx[0]];
@@ -57,6 +58,9 @@ pub fn run_check(replay: Option<Value>) -> i32 {
         let xend = if backward { -*span } else { *span };
         let mut c0 = Cfg::new(m, 0.0, xend, &p.y0).tol(tol, tol * 1e-2);
         c0.user_jac = idx[4] == 0;
+        if idx[6] == 1 {
+            c0.first_step = Some(xend / 37.0);
+        }
         let te: Vec<f64> = if idx[5] == 0 { (0..=12).map(|i| xend * i as f64 / 12.0).collect() } else { vec![0.21 * xend, 0.5 * xend, 0.83 * xend] };
         let desc = json!({"key": key, "point": describe(&dims, idx), "cfg": c0.json(&p.name)});
         let mut out = CaseOut::default();
